@@ -14,6 +14,7 @@ import (
 	"context"
 	"encoding/json"
 	"fmt"
+	"io"
 	"os"
 	"sort"
 	"strings"
@@ -37,6 +38,7 @@ type vopStmt struct {
 	Op    string     `json:"op"`
 	Typ   string     `json:"typ,omitempty"`
 	ID    string     `json:"id,omitempty"`
+	N     int        `json:"n"` // "new": number of values in the option's bundle (WithLambdaOption(v1, ..., vn))
 	From  int        `json:"from,omitempty"`
 	Paths [][]string `json:"paths,omitempty"`
 }
@@ -51,6 +53,50 @@ type vopCase struct {
 	// leaf Intr (possibly inside a nested graph); calls[0] runs up to the mark, calls[1] resumes with the same checkpoint id
 	Intr      string `json:"intr"`
 	IntrAfter bool   `json:"intrafter"`
+	Mode      string `json:"mode"`  // invoke | stream: the paradigm of every call of the case
+	Keyed     string `json:"keyed"` // unit added with WithInputKey (its predecessor with the matching WithOutputKey); "" = none
+}
+
+// node options of unit u inside its graph: name, and the key attributes when u or its successor is the keyed unit
+func (r *vopRun) nodeOpts(u *vopUnit, next *vopUnit, extra ...GraphAddNodeOpt) []GraphAddNodeOpt {
+	opts := append([]GraphAddNodeOpt{WithNodeName("N_" + u.U)}, extra...)
+	if r.c.Keyed != "" && u.U == r.c.Keyed {
+		opts = append(opts, WithInputKey("k_"+u.U))
+	}
+	if r.c.Keyed != "" && next != nil && next.U == r.c.Keyed {
+		opts = append(opts, WithOutputKey("k_"+next.U))
+	}
+	return opts
+}
+
+func vopNext(kids []*vopUnit, i int) *vopUnit {
+	if i+1 < len(kids) {
+		return kids[i+1]
+	}
+	return nil
+}
+
+func vopBundle(st vopStmt) []any {
+	n := st.N
+	if n < 1 {
+		n = 1
+	}
+	out := make([]any, 0, n)
+	for j := 1; j <= n; j++ {
+		id := st.ID
+		if j > 1 {
+			id = fmt.Sprintf("%s.%d", st.ID, j)
+		}
+		switch st.Typ {
+		case "T1":
+			out = append(out, vopT1{ID: id})
+		case "T2":
+			out = append(out, vopT2{ID: id})
+		case "T3":
+			out = append(out, vopT3{ID: id})
+		}
+	}
+	return out
 }
 
 type vopStore struct {
@@ -286,16 +332,17 @@ func (r *vopRun) build(gid string, top bool, gk string) (AnyGraph, error) {
 	switch gk {
 	case "chain":
 		ch := NewChain[string, string]()
-		for _, u := range r.kids(gid) {
+		kids := r.kids(gid)
+		for i, u := range kids {
 			key := u.Path[len(u.Path)-1]
 			if u.Graph {
 				sub, err := r.build(u.U, false, u.GK)
 				if err != nil {
 					return nil, err
 				}
-				ch.AppendGraph(sub, WithNodeKey(key), WithNodeName("N_"+u.U), WithGraphCompileOptions(r.intrOpts(u.U)...))
+				ch.AppendGraph(sub, r.nodeOpts(u, vopNext(kids, i), WithNodeKey(key), WithGraphCompileOptions(r.intrOpts(u.U)...))...)
 			} else {
-				ch.AppendLambda(r.leaf(u, first), WithNodeKey(key), WithNodeName("N_"+u.U))
+				ch.AppendLambda(r.leaf(u, first), r.nodeOpts(u, vopNext(kids, i), WithNodeKey(key))...)
 			}
 			first = false
 		}
@@ -322,18 +369,19 @@ func (r *vopRun) build(gid string, top bool, gk string) (AnyGraph, error) {
 	}
 	g := NewGraph[string, string]()
 	prev := START
-	for _, u := range r.kids(gid) {
+	gkids := r.kids(gid)
+	for i, u := range gkids {
 		key := u.Path[len(u.Path)-1]
 		if u.Graph {
 			sub, err := r.build(u.U, false, u.GK)
 			if err != nil {
 				return nil, err
 			}
-			if err := g.AddGraphNode(key, sub, WithNodeName("N_"+u.U), WithGraphCompileOptions(r.intrOpts(u.U)...)); err != nil {
+			if err := g.AddGraphNode(key, sub, r.nodeOpts(u, vopNext(gkids, i), WithGraphCompileOptions(r.intrOpts(u.U)...))...); err != nil {
 				return nil, err
 			}
 		} else {
-			if err := g.AddLambdaNode(key, r.leaf(u, first), WithNodeName("N_"+u.U)); err != nil {
+			if err := g.AddLambdaNode(key, r.leaf(u, first), r.nodeOpts(u, vopNext(gkids, i))...); err != nil {
 				return nil, err
 			}
 		}
@@ -417,7 +465,8 @@ func (r *vopRun) handler(id string) callbacks.Handler {
 
 func (r *vopRun) runCase() {
 	c := r.c
-	r.rec.log("case", map[string]any{"id": c.ID, "tree": c.Tree, "units": c.Units, "prog": c.Prog, "calls": c.Calls, "intr": c.Intr, "intrafter": c.IntrAfter})
+	r.rec.log("case", map[string]any{"id": c.ID, "tree": c.Tree, "units": c.Units, "prog": c.Prog, "calls": c.Calls, "intr": c.Intr, "intrafter": c.IntrAfter,
+		"mode": c.Mode, "keyed": c.Keyed})
 	defer r.rec.log("done", map[string]any{})
 	var invoke func(ctx context.Context, in string, opts ...Option) error
 	npar := 0
@@ -445,6 +494,21 @@ func (r *vopRun) runCase() {
 			return
 		}
 		invoke = func(ctx context.Context, in string, opts ...Option) error {
+			if c.Mode == "stream" {
+				sr, err := run.Stream(ctx, in, opts...)
+				if err != nil {
+					return err
+				}
+				defer sr.Close()
+				for {
+					if _, e := sr.Recv(); e != nil {
+						if e == io.EOF {
+							return nil
+						}
+						return e
+					}
+				}
+			}
 			_, err := run.Invoke(ctx, in, opts...)
 			return err
 		}
@@ -455,12 +519,8 @@ func (r *vopRun) runCase() {
 		switch st.Op {
 		case "new":
 			switch st.Typ {
-			case "T1":
-				vars = append(vars, WithLambdaOption(vopT1{ID: st.ID}))
-			case "T2":
-				vars = append(vars, WithLambdaOption(vopT2{ID: st.ID}))
-			case "T3":
-				vars = append(vars, WithLambdaOption(vopT3{ID: st.ID}))
+			case "T1", "T2", "T3":
+				vars = append(vars, WithLambdaOption(vopBundle(st)...))
 			case "cb":
 				vars = append(vars, WithCallbacks(r.handler(st.ID)))
 			default:
@@ -567,6 +627,11 @@ func TestVerifOpt(t *testing.T) {
 			c := &vopCase{}
 			if e := json.Unmarshal(line, c); e != nil {
 				t.Fatalf("bad case line: %v: %s", e, line)
+			}
+			for i := range c.Prog {
+				if c.Prog[i].Op == "new" && c.Prog[i].N < 1 {
+					c.Prog[i].N = 1
+				}
 			}
 			cases = append(cases, c)
 		}
